@@ -22,6 +22,10 @@ pub struct Caller {
     pub task_ms: u64,
     /// 0 ok, 1 error, 2 panic
     pub outcome: u8,
+    /// multi-threaded mode only: the caller's runtime is shut down (its call and, if it owns the flight, the spawned
+    /// owner task are dropped) at the k-th time its call is found pending
+    #[serde(default)]
+    pub cancel_after: Option<u32>,
 }
 
 #[derive(Clone, Debug, Serialize, Deserialize, PartialEq)]
@@ -49,6 +53,8 @@ struct Log {
     invoke: Vec<Option<u64>>,
     ret: Vec<Option<u64>>,
     result: Vec<Option<(Res, bool)>>,
+    /// event number at which a caller's runtime was shut down mid-call
+    cancelled: Vec<Option<u64>>,
 }
 
 #[derive(Clone, Debug, PartialEq)]
@@ -133,6 +139,7 @@ impl Engine for FlightEngine {
                 arrival_ms,
                 task_ms,
                 outcome: rng.weighted(&[6, 2, 1]) as u8,
+                cancel_after: None,
             });
         }
         let p = Plan {
@@ -145,6 +152,11 @@ impl Engine for FlightEngine {
         let mut p = p;
         if p.mt && p.callers.len() > 4 {
             p.callers.truncate(4);
+        }
+        if p.mt && rng.chance(1, 3) {
+            // fault: one caller's runtime goes away while its call is in flight
+            let i = rng.usize_below(p.callers.len());
+            p.callers[i].cancel_after = Some(1 + rng.below(4) as u32);
         }
         serde_json::to_value(p).unwrap()
     }
@@ -160,6 +172,7 @@ impl Engine for FlightEngine {
             invoke: vec![None; n],
             ret: vec![None; n],
             result: vec![None; n],
+            cancelled: vec![None; n],
             ..Default::default()
         }));
         let (hung, sim_ms) = if p.mt {
@@ -178,10 +191,10 @@ impl Engine for FlightEngine {
     }
 
     fn rule(&self, _focus: &str) -> String {
-        "Each run: 1-8 callers over 1-3 keys with seeded arrival times and task durations, tasks that succeed with a unique token, fail with a unique message, or panic. Two execution modes: (single-threaded) a paused-clock current-thread runtime where at each of the five guarded yield points inside Group::work the schedule stream decides whether the caller yields or sleeps; (multi-threaded, one run in three) every caller is an OS thread with its own runtime under the cooperative one-thread-at-a-time scheduler, which switches at those yield points, at lock-aware points inside Call::{get_future,complete} that are live only where the result lock is not held, and whenever a caller's future is pending; a run in which every remaining caller stays pending is a hang. Non-trivial: at least one caller received another caller's outcome (a waiter overlapped a flight) and at least one schedule decision fired. Distinct: hash of the per-caller (invoke, return, task start) event numbers, key and outcome kind.".into()
+        "Each run: 1-8 callers over 1-3 keys with seeded arrival times and task durations, tasks that succeed with a unique token, fail with a unique message, or panic. Two execution modes: (single-threaded) a paused-clock current-thread runtime where at each of the five guarded yield points inside Group::work the schedule stream decides whether the caller yields or sleeps; (multi-threaded, one run in three) every caller is an OS thread with its own runtime under the cooperative one-thread-at-a-time scheduler, which switches at those yield points, at lock-aware points inside Call::{get_future,complete} that are live only where the result lock is not held, and whenever a caller's future is pending; in one multi-threaded run in three one caller's runtime is shut down at the 1st..4th time its call is found pending (the call and, for an owner, its spawned task are dropped: every other caller must still return, with the dropped-owner notification at worst); a run in which every remaining caller stays pending is a hang. Non-trivial: at least one caller received another caller's outcome (a waiter overlapped a flight) and at least one schedule decision fired. Distinct: hash of the per-caller (invoke, return, task start) event numbers, key and outcome kind.".into()
     }
     fn real_vs_stub(&self) -> Value {
-        json!({"real": ["utils::singleflight::{Group, Call, OwnerTask}", "tokio Mutex/Notify/JoinHandle, parking_lot RwLock"], "simulated": ["arrival times, task durations (paused clock)", "scheduling between lock sections (H5 yield points)", "multi-threaded mode: OS-thread interleaving at H5 points, lock-aware points and pending polls"], "limit": "interleavings at lock-section granularity plus wherever a lock-aware point finds the result lock free; not at atomic-instruction granularity"})
+        json!({"real": ["utils::singleflight::{Group, Call, OwnerTask}", "tokio Mutex/Notify/JoinHandle, parking_lot RwLock"], "simulated": ["arrival times, task durations (paused clock)", "scheduling between lock sections (H5 yield points)", "multi-threaded mode: OS-thread interleaving at H5 points, lock-aware points and pending polls", "shutdown of a caller's runtime mid-call"], "limit": "interleavings at lock-section granularity plus wherever a lock-aware point finds the result lock free; not at atomic-instruction granularity"})
     }
     fn assumptions(&self, _focus: &str) -> Vec<String> {
         vec!["tokio's primitives are trusted; multi-threaded interleavings are emulated by yields/sleeps at the guarded points between lock sections and, in multi-threaded mode, by a cooperative thread scheduler (DESIGN §7 C20).".into()]
@@ -279,7 +292,7 @@ fn check_history(p: &Plan, log: &Arc<Mutex<Log>>, hung: bool, rep: &mut RunRepor
         let l = log.lock().unwrap();
         // C20.e
         for i in 0..n {
-            if l.ret[i].is_none() {
+            if l.ret[i].is_none() && l.cancelled[i].is_none() {
                 rep.violate("C20.e", "caller-never-returned", format!("caller {i} (key {}) never returned; hung={hung}", p.callers[i].key));
             }
         }
@@ -303,8 +316,9 @@ fn check_history(p: &Plan, log: &Arc<Mutex<Log>>, hung: bool, rep: &mut RunRepor
                     continue;
                 }
                 if let (Some(si), Some(sj)) = (l.task_start[i], l.task_start[j]) {
-                    let ei = l.task_end[i].unwrap_or(u64::MAX);
-                    let ej = l.task_end[j].unwrap_or(u64::MAX);
+                    // a task dropped with its runtime ended at the shutdown
+                    let ei = l.task_end[i].or(l.cancelled[i]).unwrap_or(u64::MAX);
+                    let ej = l.task_end[j].or(l.cancelled[j]).unwrap_or(u64::MAX);
                     if si < ej && sj < ei {
                         rep.violate("C20.a", "concurrent-tasks-same-key", format!("tasks of callers {i} and {j} (same key) ran at the same time"));
                     }
@@ -360,7 +374,10 @@ fn check_history(p: &Plan, log: &Arc<Mutex<Log>>, hung: bool, rep: &mut RunRepor
                     _ => rep.violate("C20.b", "error-from-nowhere", format!("caller {i} got error {msg:?} which no failing task produced")),
                 },
                 Res::Panic(_) => {
-                    let found = (0..n).any(|t| p.callers[t].outcome == 2 && flight_ok(t).is_ok());
+                    // the notification also stands for an owner task that was dropped with its runtime before it
+                    // produced a result (the call of a cancelled owner is never removed, so it may be met later too)
+                    let found = (0..n).any(|t| p.callers[t].outcome == 2 && flight_ok(t).is_ok())
+                        || (0..n).any(|t| t != i && p.callers[t].key == p.callers[i].key && l.cancelled[t].is_some_and(|c| c < ret));
                     if !found {
                         rep.violate("C20.b", "panic-from-nowhere", format!("caller {i} was told the owner panicked but no panicking task of its key was alive during the call"));
                     }
@@ -387,7 +404,8 @@ fn check_history(p: &Plan, log: &Arc<Mutex<Log>>, hung: bool, rep: &mut RunRepor
                 }
             }
         }
-        let owners = l.result.iter().flatten().filter(|r| r.1).count();
+        let owners = l.result.iter().flatten().filter(|r| r.1).count()
+            + (0..n).filter(|&i| l.cancelled[i].is_some() && l.result[i].is_none() && l.task_runs[i] > 0).count();
         let ran = l.task_runs.iter().filter(|&&r| r > 0).count();
         if owners != ran && !hung {
             rep.violate("C20.a", "flights-vs-tasks", format!("{owners} owning calls but {ran} tasks executed"));
@@ -397,6 +415,11 @@ fn check_history(p: &Plan, log: &Arc<Mutex<Log>>, hung: bool, rep: &mut RunRepor
         rep.count("fault:yield_points_fired", l.yields_fired);
         rep.count("fault:task_error", p.callers.iter().enumerate().filter(|(i, c)| c.outcome == 1 && l.task_runs[*i] > 0).count() as u64);
         rep.count("fault:task_panic", p.callers.iter().enumerate().filter(|(i, c)| c.outcome == 2 && l.task_runs[*i] > 0).count() as u64);
+        rep.count("fault:runtime_shutdown_mid_call", l.cancelled.iter().flatten().count() as u64);
+        rep.count(
+            "probe:owner_task_dropped_unfinished",
+            (0..n).filter(|&i| l.cancelled[i].is_some() && l.task_end[i].is_none() && (0..n).any(|j| j != i && p.callers[j].key == p.callers[i].key)).count() as u64,
+        );
         rep.count("probe:coalesced_callers", (n - ran.min(n)) as u64);
         rep.nontrivial = overlapped_waiter && l.yields_fired > 0;
         let mut words: Vec<u64> = Vec::new();
@@ -407,7 +430,7 @@ fn check_history(p: &Plan, log: &Arc<Mutex<Log>>, hung: bool, rep: &mut RunRepor
             words.push(p.callers[i].key as u64 * 4 + p.callers[i].outcome as u64);
         }
         rep.signature = mix(&words);
-        rep.sample = Some(json!({"callers": p.callers.iter().map(|c| json!([c.key, c.arrival_ms, c.task_ms, c.outcome])).collect::<Vec<_>>(), "yield_mode": p.yield_mode, "multi_threaded": p.mt, "flights": ran, "yields_fired": l.yields_fired}));
+        rep.sample = Some(json!({"callers": p.callers.iter().map(|c| json!([c.key, c.arrival_ms, c.task_ms, c.outcome, c.cancel_after])).collect::<Vec<_>>(), "yield_mode": p.yield_mode, "multi_threaded": p.mt, "flights": ran, "yields_fired": l.yields_fired}));
         rep.count(if p.mt { "runs:multi_threaded" } else { "runs:single_threaded" }, 1);
     }
 }
@@ -449,6 +472,11 @@ fn shrink_plan(plan: &Value) -> Vec<Value> {
             q.callers[i].key = 0;
             out.push(q);
         }
+        if c.cancel_after.is_some() {
+            let mut q = p.clone();
+            q.callers[i].cancel_after = None;
+            out.push(q);
+        }
     }
     out.into_iter().map(|q| serde_json::to_value(q).unwrap()).collect()
 }
@@ -481,6 +509,9 @@ struct Stepper<F> {
     inner: std::pin::Pin<Box<F>>,
     sched: Arc<crate::sched::Sched>,
     tid: usize,
+    cancel_after: Option<u32>,
+    pending_polls: u32,
+    log: Arc<Mutex<Log>>,
 }
 
 impl<F: std::future::Future> std::future::Future for Stepper<F> {
@@ -489,6 +520,16 @@ impl<F: std::future::Future> std::future::Future for Stepper<F> {
         match self.inner.as_mut().poll(cx) {
             std::task::Poll::Ready(v) => std::task::Poll::Ready(Some(v)),
             std::task::Poll::Pending => {
+                self.pending_polls += 1;
+                if self.cancel_after == Some(self.pending_polls) {
+                    // fault: this caller's runtime is shut down now, with the call (and possibly its owner task)
+                    // still pending
+                    let mut l = self.log.lock().unwrap();
+                    l.seq += 1;
+                    let s = l.seq;
+                    l.cancelled[self.tid] = Some(s);
+                    return std::task::Poll::Ready(None);
+                }
                 if self.sched.blocked(self.tid) {
                     return std::task::Poll::Ready(None);
                 }
@@ -526,8 +567,12 @@ fn run_mt(p: &Plan, log: Arc<Mutex<Log>>) -> (bool, u64) {
                         l.task_start[i] = Some(s);
                         l.task_runs[i] += 1;
                     }
-                    for _ in 0..c.task_ms.min(3) {
+                    for k in 0..c.task_ms.min(3) {
                         utils::verif::point("task:step");
+                        if (c.task_ms + k) % 2 == 1 {
+                            // the task is really pending here: the runtime goes back to the caller's future
+                            tokio::task::yield_now().await;
+                        }
                     }
                     {
                         let mut l = tl2.lock().unwrap();
@@ -562,8 +607,9 @@ fn run_mt(p: &Plan, log: Arc<Mutex<Log>>) -> (bool, u64) {
                 l.ret[i] = Some(s);
                 l.result[i] = Some((r, owner));
             };
-            let _ = rt.block_on(Stepper { inner: Box::pin(main), sched: sched.clone(), tid: i });
-            // let a still-running owner task of this runtime finish before the runtime goes away
+            let _ = rt.block_on(Stepper { inner: Box::pin(main), sched: sched.clone(), tid: i, cancel_after: c.cancel_after, pending_polls: 0, log: log.clone() });
+            // the runtime goes away: a still-pending owner task of this runtime is dropped with it (this thread is
+            // still the scheduled one, so the points inside the drop handler switch threads as usual)
             drop(rt);
             utils::verif::install(None);
             sched.finish(i);
